@@ -1,2 +1,2 @@
 import DaliVerif.Drivers.RxDrv
-def main : IO Unit := DaliVerif.Proto.loop DaliVerif.RxDrv.handle
+def main : IO Unit := DaliVerif.RxDrv.loopFlush DaliVerif.RxDrv.handle
